@@ -16,7 +16,7 @@ func init() { registry["C10"] = propC10 }
 func propC10() *Property {
 	return &Property{
 		ID:          "C10",
-		Explanation: "Structural clauses of collection paging only. Decided: (R1) the walk is bounded: the only recursion of harvestWithEmptyCount is guarded by the false edge of `emptyCount > 3`, the counter is incremented exactly on the empty-page edge, and every early return delivers exactly one failure item with a nil continuation; (R2) 'consecutive' means reset: on every path that does not increment the counter, the counter handed to the next page was last assigned a constant (it does not depend on the incoming counter); (R3) slot/source agreement and order: element k of this page is stored at slot k from c.elements[k+startingPoint] (difference of the linear index forms is exactly startingPoint), the result is this page's items followed by the later pages', and the next page is asked for amount-amountFromThisPage items from offset 0; (R4) continuation shape: the page names itself as continuation only under length > amount+startingPoint with next offset amount+startingPoint, otherwise it forwards the deeper result or ends with nil. (R5) in NewCollectionFromObject every path to a store of the following-page link is enumerated; `first` is read only on paths that know the kind is Collection/OrderedCollection and `next` only on paths that exclude both (pages inherit `first`, so a page falling back to it loops for ever). (R6) Harvest and everything it calls write nothing reachable from the collection and no package-level state (mutating methods of sync/atomic and sync.Map values count as writes). (R7) at every call of Harvest outside the implementing packages the collection to go on with and the offset to go on from are both used and end up in the same page (or are returned on together). NOT decided: that these pieces compose to 'every item exactly once, in order' for every layout and chunking, prefix-of-truth on cyclic chains, and the unsigned arithmetic of amountFromThisPage (value-level reasoning).",
+		Explanation: "Structural clauses of collection paging only. Decided: (R1) the walk is bounded: the only recursion of harvestWithEmptyCount is guarded by the false edge of `emptyCount > 3`, the counter is incremented exactly on the empty-page edge, and every early return delivers exactly one failure item with a nil continuation; (R2) 'consecutive' means reset: on every path that does not increment the counter, the counter handed to the next page was last assigned a constant (it does not depend on the incoming counter); (R3) slot/source agreement and order: element k of this page is stored at slot k from c.elements[k+startingPoint] (difference of the linear index forms is exactly startingPoint), the result is this page's items followed by the later pages', and the next page is asked for amount-amountFromThisPage items from offset 0; (R4) continuation shape: the page names itself as continuation only under length > amount+startingPoint with next offset amount+startingPoint, otherwise it forwards the deeper result or ends with nil. (R5) in NewCollectionFromObject every path to a store of the following-page link is enumerated; `first` is read only on paths that know the kind is Collection/OrderedCollection and `next` only on paths that exclude both (pages inherit `first`, so a page falling back to it loops for ever). (R6) Harvest and everything it calls write nothing reachable from the collection and no package-level state (mutating methods of sync/atomic and sync.Map values count as writes). (R7) at every call of Harvest outside the implementing packages the collection to go on with and the offset to go on from are both used and end up in the same page (or are returned on together). (R9) client.FetchUnknown refetches every identified object of at most two keys: a {id, type} reference to a page or item is not taken for the (empty) object itself. NOT decided: that these pieces compose to 'every item exactly once, in order' for every layout and chunking, prefix-of-truth on cyclic chains, and the unsigned arithmetic of amountFromThisPage (value-level reasoning).",
 		Assumptions: []string{"goroutine fan-out in harvest is race-free (C08.R5)"},
 		Rules: []Rule{
 			{ID: "C10.R1", Title: "bounded walk: threshold guard, increment on empty pages only, failure returns", Floor: 3, Run: c10R1},
@@ -26,6 +26,7 @@ func propC10() *Property {
 			{ID: "C10.R5", Title: "the following page is first for a collection and next for a page, never the other way round", Floor: 2, Run: c10R5},
 			{ID: "C10.R6", Title: "harvesting reads the collection and never changes it", Floor: 1, Run: c10R6},
 			{ID: "C10.R7", Title: "the reader keeps the continuation (collection and offset) together", Floor: 2, Run: c10R7},
+			{ID: "C10.R9", Title: "a page or item embedded as a bare reference ({id, type}) is fetched, not taken for an empty object: FetchUnknown refetches every identified object of at most two keys", Floor: 1, Run: c10R9},
 			{ID: "C10.R8", Title: "a missing key and JSON null are the same 'absent' that ends a walk: accessors report absent exactly on those (same instances as C17.R4)", Floor: 30, Run: c17R4},
 		},
 	}
@@ -956,4 +957,92 @@ func followingKeyOnPaths(fn *ssa.Function, b *ssa.BasicBlock, key string, isKind
 		}
 	}
 	return why
+}
+
+// c10R9: `first`, `next` and the items of a collection can be given as a URL,
+// as the object itself, or as a reference object that carries nothing but its
+// id and its type. client.FetchUnknown tells the last two apart by size: an
+// identified object of at most two keys is refetched. If the bound were lower,
+// a {id, type} page would be taken for a page without items and without a
+// successor — paging would end there, silently. Decided: FetchUnknown compares
+// the length of the object with a constant in a test whose true side reaches
+// the FetchURL call, and the test holds for lengths 1 and 2.
+func c10R9(c *Ctx) {
+	P := c.P
+	fn := P.Func("servitor/client", "FetchUnknown")
+	fname := FuncName(fn)
+	found := false
+	eachInstr(fn, func(b *ssa.BasicBlock, _ int, in ssa.Instruction) {
+		iff, ok := in.(*ssa.If)
+		if !ok {
+			return
+		}
+		cmp, ok := iff.Cond.(*ssa.BinOp)
+		if !ok {
+			return
+		}
+		lc, ok := cmp.X.(*ssa.Call)
+		if !ok {
+			return
+		}
+		bi, ok := lc.Call.Value.(*ssa.Builtin)
+		if !ok || bi.Name() != "len" {
+			return
+		}
+		if _, isMap := lc.Call.Args[0].Type().Underlying().(*types.Map); !isMap {
+			return
+		}
+		k, isK := constInt(cmp.Y)
+		if !isK {
+			return
+		}
+		// reaches the refetch on the true side
+		reaches := false
+		seen := map[*ssa.BasicBlock]bool{}
+		work := []*ssa.BasicBlock{b.Succs[0]}
+		for len(work) > 0 && !reaches {
+			x := work[len(work)-1]
+			work = work[:len(work)-1]
+			if seen[x] || x == b.Succs[1] {
+				continue
+			}
+			seen[x] = true
+			for _, xi := range x.Instrs {
+				if call, ok := xi.(*ssa.Call); ok {
+					if sc := call.Call.StaticCallee(); sc != nil && sc.Name() == "FetchURL" {
+						reaches = true
+					}
+				}
+			}
+			if len(seen) < 4 {
+				work = append(work, x.Succs...)
+			}
+		}
+		if !reaches {
+			return
+		}
+		found = true
+		holds := func(n int64) bool {
+			switch cmp.Op {
+			case token.LEQ:
+				return n <= k
+			case token.LSS:
+				return n < k
+			case token.EQL:
+				return n == k
+			case token.NEQ:
+				return n != k
+			case token.GEQ:
+				return n >= k
+			case token.GTR:
+				return n > k
+			}
+			return false
+		}
+		c.check(holds(1) && holds(2), fname+"/stub-size", P.InstrPos(in), fname, "identified objects of one or two keys are refetched",
+			fmt.Sprintf("an identified object of two keys ({id, type}: a reference to a page or an item) is not refetched (the size test is len %s %d): it is taken for the object itself, a page without items and without successor, and paging ends there without an error", cmp.Op, k))
+	})
+	if !found {
+		c.bad(fname+"/stub-size", P.Pos(fn.Pos()), fname, "FetchUnknown no longer tells a reference object from the object itself by its size before refetching")
+	}
 }
